@@ -55,8 +55,8 @@ def _parse(res):
     m = _DEPTH.search(res.stdout)
     if m:
         res.depth = int(m.group(1))
-    for line in res.stdout.splitlines():
-        s = line.strip()
+    for line in res.stdout.split('\n'):          # (not splitlines(): a printed value may contain NEL, U+2028, FF ...)
+        s = line.strip(' \t\r')
         if s.startswith('"') and s.endswith('"') and len(s) >= 2:
             try:
                 inner = json.loads(s)
